@@ -2,23 +2,26 @@
    static evaluation over its own move generation, with the engine's leaf rules (repetition = 0,
    check extension at depth 0, capture quiescence, mate = -(MATE - ply), stalemate = 0).
    [negamax] is the readable definition (max over all lines, no window); [negamax_ab] is a plain
-   fail-soft alpha-beta used as the executable oracle. No PVS, no killers, no null move. *)
+   fail-soft alpha-beta used as the executable oracle (proved to compute [negamax] in
+   Proofs/AlphaBeta.v). No PVS, no killers, no null move. *)
 From Walleye Require Export Model.Search.
 Open Scope Z_scope.
 
 Section Minimax.
 Variable zt : ztable.
 
-(* quiescence value: stand pat or the best capture line *)
+(* maximum of the negated child values, threaded through option *)
+Definition max_children (rec : BoardState -> option Z) (ms : list BoardState) (init : option Z) : option Z :=
+  fold_left (fun acc mov =>
+               match acc, rec mov with
+               | Some a, Some v => Some (Z.max a (- v))
+               | _, _ => None
+               end) ms init.
+
 Fixpoint qvalue (fuel : nat) (b : BoardState) : option Z :=
   match fuel with
   | O => None
-  | S f =>
-      fold_left (fun acc mov =>
-                   match acc, qvalue f mov with
-                   | Some a, Some v => Some (Z.max a (- v))
-                   | _, _ => None
-                   end) (generate_moves zt b CapturesOnly) (Some (get_evaluation b))
+  | S f => max_children (qvalue f) (generate_moves zt b CapturesOnly) (Some (get_evaluation b))
   end.
 
 Fixpoint negamax (fuel : nat) (b : BoardState) (depth ply : Z) (t : dtable) : option Z :=
@@ -35,35 +38,33 @@ Fixpoint negamax (fuel : nat) (b : BoardState) (depth ply : Z) (t : dtable) : op
           match generate_moves zt b AllMoves with
           | [] => if chk then Some (- (MATE_SCORE - ply)) else Some 0
           | m0 :: rest =>
-              fold_left (fun acc mov =>
-                           match acc, negamax f mov (depth - 1) (ply + 1) t' with
-                           | Some a, Some v => Some (Z.max a (- v))
-                           | _, _ => None
-                           end) rest
-                        (match negamax f m0 (depth - 1) (ply + 1) t' with Some v => Some (- v) | None => None end)
+              max_children (fun mov => negamax f mov (depth - 1) (ply + 1) t') rest
+                           (match negamax f m0 (depth - 1) (ply + 1) t' with Some v => Some (- v) | None => None end)
           end
   end.
 
-(* executable oracle: fail-soft alpha-beta *)
+(* the alpha-beta move loop: [rec mov a b] is the child's value in the window (a, b) *)
+Fixpoint ab_children (rec : BoardState -> Z -> Z -> option Z) (beta : Z)
+         (ms : list BoardState) (alpha : Z) (best : option Z) : option Z :=
+  match ms with
+  | [] => best
+  | mov :: rest =>
+      match rec mov (- beta) (- alpha) with
+      | None => None
+      | Some v =>
+          let score := - v in
+          let best' := match best with Some x => Z.max x score | None => score end in
+          if beta <=? score then Some best' else ab_children rec beta rest (Z.max alpha score) (Some best')
+      end
+  end.
+
 Fixpoint qvalue_ab (fuel : nat) (b : BoardState) (alpha beta : Z) : option Z :=
   match fuel with
   | O => None
   | S f =>
       let sp := get_evaluation b in
       if beta <=? sp then Some sp
-      else
-        (fix loop (ms : list BoardState) (alpha best : Z) : option Z :=
-           match ms with
-           | [] => Some best
-           | mov :: rest =>
-               match qvalue_ab f mov (- beta) (- alpha) with
-               | None => None
-               | Some v =>
-                   let score := - v in
-                   let best := Z.max best score in
-                   if beta <=? score then Some best else loop rest (Z.max alpha score) best
-               end
-           end) (stable_sort_desc (generate_moves zt b CapturesOnly)) (Z.max alpha sp) sp
+      else ab_children (qvalue_ab f) beta (stable_sort_desc (generate_moves zt b CapturesOnly)) (Z.max alpha sp) (Some sp)
   end.
 
 Fixpoint negamax_ab (fuel : nat) (b : BoardState) (depth ply alpha beta : Z) (t : dtable) : option Z :=
@@ -80,22 +81,11 @@ Fixpoint negamax_ab (fuel : nat) (b : BoardState) (depth ply alpha beta : Z) (t 
           match generate_moves zt b AllMoves with
           | [] => if chk then Some (- (MATE_SCORE - ply)) else Some 0
           | moves =>
-              (fix loop (ms : list BoardState) (alpha : Z) (best : option Z) : option Z :=
-                 match ms with
-                 | [] => best
-                 | mov :: rest =>
-                     match negamax_ab f mov (depth - 1) (ply + 1) (- beta) (- alpha) t' with
-                     | None => None
-                     | Some v =>
-                         let score := - v in
-                         let best' := match best with Some x => Z.max x score | None => score end in
-                         if beta <=? score then Some best' else loop rest (Z.max alpha score) (Some best')
-                     end
-                 end) (stable_sort_desc moves) alpha None
+              ab_children (fun mov a b => negamax_ab f mov (depth - 1) (ply + 1) a b t') beta
+                          (stable_sort_desc moves) alpha None
           end
   end.
 
-(* the value of iteration [d] at the root and the root moves attaining it *)
 Definition root_values (fuel : nat) (b : BoardState) (d : Z) (t : dtable) : list (BoardState * option Z) :=
   map (fun mov => (mov, match negamax_ab fuel mov (d - 1) 1 (- POS_INF) POS_INF t with
                         | Some v => Some (- v) | None => None end))
